@@ -61,6 +61,25 @@ def families(seed, n):
     return out
 
 
+def systematic():
+    """a tree wildcard at either edge of a branch x what precedes and follows the group x every law: the form of the wildcard
+    depends on the position of the GROUP in its concatenation and on the position of the wildcard in the branch"""
+    branches = ["a/**/", "**/a", "a/**", "a/**/b", "/**/a", "**/", "a/**/b/**/", "**/a/**"]
+    pres = ["", "x", "x/", "x/y"]
+    posts = ["", "c", "/c", "c/y", "/**/c"]
+    out = []
+    for b in branches:
+        for pre in pres:
+            for post in posts:
+                out.append(("wrap-alt", pre + "{" + b + "}" + post, [pre + b + post]))
+                out.append(("wrap-rep", pre + "<" + b + ":1>" + post, [pre + b + post]))
+                out.append(("alt", pre + "{" + b + ",q}" + post, [pre + b + post, pre + "q" + post]))
+                out.append(("alt", pre + "{q," + b + "}" + post, [pre + "q" + post, pre + b + post]))
+                out.append(("rep", pre + "<" + b + ":1,2>" + post, [pre + b + post, pre + b + b + post]))
+                out.append(("alt", pre + "{{" + b + "},q}" + post, [pre + b + post, pre + "q" + post]))
+    return out
+
+
 def run(rep, tier, seed, replay):
     rep.rule = ("families built by construction (substitute each branch, unroll a repetition, wrap in single-branch braces or a once-only "
                 "repetition, combine with any() as text / compiled / nested); the compiled program of the whole and the union of the "
@@ -69,6 +88,8 @@ def run(rep, tier, seed, replay):
     h, m = common.harness(), common.model()
     n = 900 if tier == "quick" else 12000
     fams = families(seed, n)
+    have = {(l, w, tuple(ps)) for l, w, ps in fams}
+    fams += [f for f in systematic() if (f[0], f[1], tuple(f[2])) not in have]
     findings, _ = common.load_findings("C07")
     if replay is not None:
         fams = [(replay["input"]["law"], replay["input"].get("whole"), replay["input"]["parts"])]
